@@ -79,6 +79,18 @@ class _G:
         tail = " > 0" if op == "Where" else ""
         return f"lambda {a}: {a} * {k} + _t__k{tail}", f"lambda {a}: {a} * {k} - _t__k{tail}"
 
+    def jump_pair(self, op, a):
+        """two lambdas with the same names, constants and instructions up to WHERE the jumps go: (p and q) or r  /  p and (q or r)"""
+        self.n += 1
+        return f"lambda {a}: ({a} > 0 and {a} > 5) or {a} > -2", f"lambda {a}: {a} > 0 and ({a} > 5 or {a} > -2)"
+
+    def private_pair2(self, op, a):
+        """two lambdas that differ in one module variable; both are spelled like mangled class-private names (`_a__k`, `_b__k`)"""
+        self.n += 1
+        k = self.draw(st.integers(2, 9))
+        tail = " > 0" if op == "Where" else ""
+        return f"lambda {a}: {a} * {k} + _a__k{tail}", f"lambda {a}: {a} * {k} + _b__k{tail}"
+
     def cell_pair(self, op, a):
         """two lambdas with the same argument, names and constants; only in the first the nested lambda uses the outer argument"""
         self.n += 1
@@ -370,16 +382,18 @@ def _unit(draw):
         a2 = a1 if draw(st.integers(0, 1)) == 0 else draw(st.sampled_from(ARGS))
         flag = draw(st.booleans())
         l1, l2 = g.lam(o, a1)[0], g.lam(o, a2)[0]
-        c_ = draw(st.integers(0, 5)) if a1 == a2 else 5
+        c_ = draw(st.integers(0, 7)) if a1 == a2 else 7
         if c_ <= 1:
             l2 = g.twin(o, l1, a1) or l2
-        elif c_ <= 4:
-            l1, l2 = [g.nested_pair, g.private_pair, g.cell_pair][c_ - 2](o, a1)
+        elif c_ <= 6:
+            l1, l2 = [g.nested_pair, g.private_pair, g.cell_pair, g.jump_pair, g.private_pair2][c_ - 2](o, a1)
             if draw(st.booleans()):
                 l1, l2 = l2, l1
         body = f"FLAG = {flag}\nq = ds.{o}(({l1}) if FLAG else ({l2}))" if pick == 50 else f"FLAG = {flag}\nq = ds.{o}({l1} if FLAG else {l2})"
         if "_t__k" in body:
             body = f"_t__k = {1000 + g.n * 17}\n" + body
+        if "_a__k" in body:
+            body = f"_a__k = {1000 + g.n * 17}\n_b__k = {2000 + g.n * 17}\n" + body
         sup = False
         label = "lambda-in-arm-of-conditional-expression"
     elif pick in (52, 53):
@@ -529,7 +543,12 @@ def _unit(draw):
         g.n += 1
         m = 1000 + g.n * 17
         c = " > 0" if o == "Where" else ""
-        if pick == 70:
+        if pick == 70 and draw(st.booleans()):
+            # a decorator written as a class: its instances are callable objects that carry __wrapped__
+            body = (f"import functools\nclass Deco:\n    def __init__(self, fn):\n        functools.update_wrapper(self, fn)\n        self.fn = fn\n"
+                    f"    def __call__(self, *a, **k):\n        return self.fn(*a, **k) - 2000\n"
+                    f"@Deco\ndef f1({a}): return {a} * 3 + {m}{c}\nq = ds.{o}(f1)")
+        elif pick == 70:
             body = (f"import functools\ndef deco(fn):\n    @functools.wraps(fn)\n    def w(*a, **k):\n        return fn(*a, **k) - 2000\n    return w\n"
                     f"@deco\ndef f1({a}): return {a} * 3 + {m}{c}\nq = ds.{o}(f1)")
         else:
